@@ -13,7 +13,9 @@ ENGINES = [{
 }]
 
 NOTES = ("One entry point: bin/check <ID> --tier quick|thorough (VERIF_SEED honoured). Exit 2 means the machinery "
-         "failed (never a verdict). Known findings live in known_findings.json; DESIGN.md explains every check.")
+         "failed (never a verdict; also when the code under test hangs or eats memory in a check whose statement promises "
+         "no result for that call). Known findings live in known_findings.json; DESIGN.md explains every check. Extras X01-X04 "
+         "(spec growth, not listed here) run with the same entry point.")
 
 CHECKS = {
     "C19": {
